@@ -103,8 +103,8 @@ def run(ctx, b, broken):
                     bad = f"bad octal constant {s!r} is not reported through the error callback"
             if s.startswith("''") and not errs:
                 bad = f"empty character constant in {s!r} is not reported"
-        if bad and got is not None and want is None and re.search(r"\\[^\x00-\x7f]", s) and any(ch.isdigit() and ord(ch) > 127 for ch in s):
-            # the listed finding C10-unicode-digit-escape (an escape made of a backslash and a non-ASCII digit), in another literal
+        if bad and got is not None and want is None and any(any(ord(ch) > 127 for ch in m_.group(0)) for m_ in re.finditer(r"\\\d+", s)):
+            # the listed finding C10-unicode-digit-escape (a decimal escape `\\d+` that contains a non-ASCII digit), in another literal
             kf = [f for f in ctx.findings if f["id"] == "C10-unicode-digit-escape"]
             if kf:
                 ctx.known(kf[0]["id"], kf[0]["what"])
